@@ -374,6 +374,10 @@ def self_dependency_rule(ctx, rid):
             b_id = common.reads_field(ad, {"k": "use", "op": info[1]["b"]}, "state::File.id")
             if a_id and b_id:
                 eq_t = t_t if info[1]["op"] == "Eq" else f_t
+                # the *decision*: a later debug_assert_ne! restating it (one side only panics) decides nothing,
+                # and behind the decision its equal side cannot execute
+                if found is not None and not all(ba.path([x], ba.returns(), incl=True) is not None for x in (t_t, f_t)):
+                    continue
                 found = (sw, eq_t)
     if not ctx.ob(rid, "add_dep|self-id-test", found is not None, where=ad.span, detail="comparison of the target's id with the dependency's id located" if found else
                   "add_dep does not compare the two ids: a self-dependency is recorded and the target waits on its own lock"):
